@@ -162,6 +162,7 @@ class Interp:
         self.stn = None            # stencil.Stn when slice code is analysed
         self.follow_base_init = True
         self.opaque_modules = ()   # module name prefixes whose calls are kept as ExtCall records
+        self.range_hook = None     # hook(args, target name) for loops over symbolic ranges
         self._active_lambdas = []
         self._owned_names = set()
         self._last_opaque_call = None
@@ -326,6 +327,12 @@ class Interp:
                 env[st.target.id] = ElemIndex(st.target.id)
                 self.exec_block(st.body, env, func, depth)
                 return
+            if isinstance(it, tuple) and it and it[0] == "rangehook":
+                if not isinstance(st.target, ast.Name):
+                    raise AnalysisError("unsupported loop target")
+                env[st.target.id] = self.range_hook(it[1], st.target.id)
+                self.exec_block(st.body, env, func, depth)
+                return
             if isinstance(it, RangeSym):
                 if not isinstance(st.target, ast.Name):
                     raise AnalysisError("unsupported loop target")
@@ -371,6 +378,9 @@ class Interp:
         if isinstance(target, ast.Subscript):
             cont = self.eval(target.value, env, func, depth)
             idx = self.eval_index(target.slice, env, func, depth)
+            if hasattr(cont, "_fd_setitem"):
+                cont._fd_setitem(idx, v, self)
+                return
             if isinstance(cont, list):
                 if isinstance(idx, int):
                     cont[idx] = v
@@ -524,6 +534,8 @@ class Interp:
             if a in obj.attrs:
                 return obj.attrs[a]
             raise AnalysisError("%s:%d attribute %s.%s unknown to the analysis" % (func.qualname, node.lineno, obj.name, a))
+        if a == "ndim" and hasattr(obj, "_fd_getitem"):
+            return obj.ndim
         if isinstance(obj, SArr):
             if a == "size":
                 return obj.length
@@ -774,9 +786,13 @@ class Interp:
         d = self.dom
         va, vb = isinstance(a, Vec), isinstance(b, Vec)
         if isinstance(op, ast.Pow):
-            if va and _is_conc(b):
+            if va and (_is_conc(b) or d.is_value(b)):
                 self._noncov((ln, "element-wise power of a vector"))
                 return Vec(d.pow(a.x, b), d.pow(a.y, b))
+            if vb and not va:
+                self._noncov((ln, "vector used as an exponent"))
+                s_ = self.lift(a)
+                return Vec(d.pow(s_, b.x), d.pow(s_, b.y))
             raise AnalysisError("line %d: unsupported vector power" % ln)
         if va and vb:
             if isinstance(op, (ast.Mult, ast.Div)):
@@ -808,6 +824,8 @@ class Interp:
         cont = self.eval(node.value, env, func, depth)
         idx = self.eval_index(node.slice, env, func, depth)
         ln = node.lineno
+        if hasattr(cont, "_fd_getitem"):
+            return cont._fd_getitem(idx, self)
         if isinstance(cont, ParamDict):
             if not isinstance(idx, str):
                 raise AnalysisError("non-constant dictionary key")
@@ -953,6 +971,8 @@ class Interp:
                     return args[0].length
                 return LenOf(args[0])
             if base == "range":
+                if self.range_hook is not None and any(self.dom.is_value(a) for a in args):
+                    return ("rangehook", args)
                 if len(args) == 1 and isinstance(args[0], LenOf):
                     return RangeLen(args[0])
                 if len(args) == 1 and isinstance(args[0], NLin) and not args[0].is_const():
@@ -1089,6 +1109,8 @@ class GvnDomain:
     def __init__(self, alg):
         self.alg = alg
         self.lattice = {}      # key(RF) -> ('min'|'max', [operand RFs]) for values built by min/max
+        self.cur_line = 0
+        self.cur_func = ""
 
     def is_value(self, v):
         from .algebra import RF
